@@ -429,13 +429,17 @@ def build_cases(prop, tier, rng):
             out.append(("cf-table", extra.compute_fields_table(), False))
     elif prop == "C15":
         out.append(("orders", extra.order_cases(rng, 1500 if q else 40000), False))
+        if not q:
+            out.append(("orders-exhaustive-4x4", extra.exhaustive_order_cases(), False))
         n = 60 if q else 1000
         out.append(("laws", extra.orderlaw_cases(rng, corpus_pairs(60) + gen_pairs(rng, fams_all, n)), False))
     elif prop == "C16":
         out.append(("pairs", extra.function_cases(rng, 1500 if q else 40000, prec="f64"), False))
         out.append(("pairs-dbg", extra.function_cases(rng, 300 if q else 5000, prec="f64", dbg=True), True))
     elif prop == "C17":
-        out.append(("histories", extra.splay_cases(rng, 400 if q else 6000, q), False))
+        out.append(("histories", extra.splay_cases(rng, 2000 if q else 20000, q), False))
+        if not q:
+            out.append(("histories-exhaustive", extra.exhaustive_splay_cases(3, 4) + extra.exhaustive_splay_cases(2, 5), False))
     elif prop == "C18":
         out.append(("models", extra.splay_cases(rng, 100 if q else 500, q), False))
     return out
@@ -635,7 +639,8 @@ def run_property(prop, tier, seed, replay, build=True):
                    "cells_certified": st.cells, "thin_cells_skipped": st.thin},
         "distribution": {"cases": st.cases, "families": st.families, "distinct_requests": len(st.distinct)},
         "explanation": reg.get("explanation", ""),
-        "exhaustive": False,
+        "exhaustive": any("exhaust" in label or label.startswith("exh") or label == "cf-table" for label, _, _ in groups),
+        "exhaustive_groups": [label for label, _, _ in groups if "exhaust" in label or label.startswith("exh") or label == "cf-table"],
     }
     cov.update(extra_info)
     ev = {
